@@ -642,8 +642,10 @@ def build_run_model(
 
         model_variables = {"outputs": outputs, "flows": out_flows, "computed_values": out_cv}
 
-        do_full_params = do_base_params.copy()
-        do_full_params.update(parameters)
+        # Parameters that are not dynamic keep the values this runner was built with, in the derived
+        # outputs as in the model graph (the caller, or the default parameters, may supply others)
+        do_full_params = dict(parameters)
+        do_full_params.update(do_base_params)
 
         derived_outputs = calc_derived_outputs(
             parameters=do_full_params, model_variables=model_variables
